@@ -687,6 +687,146 @@ theorem C03_instance_wrong_mode (tbl : Table) (inst : Cls × Obj) :
     geometryValidateInstance tbl .dict inst = .error .invalid := by
   simp [geometryValidateInstance, bad]
 
+/-! ## follow-up: construction paths (class-level entry points, attribute objects of every kind,
+    positional / keyword calls) and histories -/
+
+/-- The class-level entry points agree with the constructor: `Cls.model_validate(dict)` and
+    `Cls.model_validate_json(text)` (a mapping, `type` present or absent) and
+    `Cls.model_validate(obj, from_attributes=True)` (an attribute object, `type` present or absent) all
+    return what `validate ty r` returns; without `from_attributes` an attribute object is refused. -/
+theorem C03_class_entrypoints_agree (ty : GType) (r : Raw) (fa : Bool) :
+    let c : Cls := ⟨ty, ty.tag, ty.tag⟩
+    let res : R Obj := (validate ty r).map fun g => (ty.tag, g)
+    classValidate c fa (.mapping none (some r)) = res ∧
+    classValidate c fa (.mapping (some ty.tag) (some r)) = res ∧
+    classValidate c true (.object (some ty.tag) (some r)) = res ∧
+    classValidate c true (.object none (some r)) = res ∧
+    classValidate c false (.object (some ty.tag) (some r)) = .error .invalid ∧
+    classValidate c fa (.mapping none none) = .error .invalid ∧
+    classValidate c fa .unusable = .error .invalid := by
+  refine ⟨?_, ?_, ?_, ?_, ?_, ?_, ?_⟩ <;> rw [classValidate_ideal] <;> simp
+
+/-- a tag that is not the class's own is refused by the class-level entry points -/
+theorem C03_class_foreign_tag (ty : GType) (t : String) (r : Option Raw) (fa : Bool) (h : t ≠ ty.tag) :
+    classValidate ⟨ty, ty.tag, ty.tag⟩ fa (.mapping (some t) r) = .error .invalid ∧
+    classValidate ⟨ty, ty.tag, ty.tag⟩ fa (.object (some t) r) = .error .invalid := by
+  constructor <;> rw [classValidate_ideal] <;> cases r <;> simp [h]
+
+/-- Wherever the two attributes live (instance `__dict__`, class body, property, slot, named-tuple
+    field, `__getattr__`): if `getattr` finds the tag of class `ty` and coordinates `r`, the
+    attributes mode returns what `validate ty r` returns. -/
+theorem C03_attr_lookup (tbl : Table) (hw : WellFormed tbl) (o : AttrObj) (ty : GType) (r : Raw)
+    (ht : o.type.get = some ty.tag) (hr : o.coordinates.get = some r) :
+    geometryValidate tbl .attributes (.ofAttrObj o) = (validate ty r).map fun g => (ty.tag, g) := by
+  unfold PyObj.ofAttrObj
+  rw [ht, hr]
+  exact (C03_entrypoints_agree tbl hw ty r).2.2.2.2
+
+/-- an attribute `getattr` does not find is a validation error -/
+theorem C03_attr_missing (tbl : Table) (hw : WellFormed tbl) (o : AttrObj)
+    (h : o.type.get = none ∨ o.coordinates.get = none) :
+    geometryValidate tbl .attributes (.ofAttrObj o) = .error .invalid := by
+  apply C03_bad_tag_rejected tbl hw
+  intro t r hv
+  unfold PyObj.ofAttrObj at hv
+  rcases h with h | h <;> rw [h] at hv <;> simp [view] at hv
+
+/-- every way of carrying the attributes is read alike: `getattr` finds the tag and the coordinates
+    the carrier was made from (the class body loses against an instance attribute, an instance
+    `__dict__` entry loses against a property) -/
+theorem C03_carrier_get (k : Carrier) (t : String) (r : Raw) :
+    (k.make t r).type.get = some t ∧ (k.make t r).coordinates.get = some r := by
+  cases k <;> exact ⟨rfl, rfl⟩
+
+/-- hence all carriers give the result of the plain namespace object -/
+theorem C03_carriers_agree (tbl : Table) (k : Carrier) (t : String) (r : Raw) :
+    geometryValidate tbl .attributes (.ofAttrObj (k.make t r)) =
+      geometryValidate tbl .attributes (.attrs (some t) (some r)) := by
+  unfold PyObj.ofAttrObj
+  rw [(C03_carrier_get k t r).1, (C03_carrier_get k t r).2]
+
+/-- An existing geometry object that came out of a construction (constructor, `model_validate`,
+    `model_validate_json`, `model_copy`) carries the normalised coordinates; handed to the attributes
+    mode it yields what the mode yields on the original input (pass-through = re-validation here). -/
+theorem C03_instance_of_constructed (tbl : Table) (hw : WellFormed tbl) (ty : GType) (r : Raw) (g : Geom)
+    (h : validate ty r = .ok g) :
+    geometryValidateInstance tbl .attributes (⟨ty, ty.tag, ty.tag⟩, (ty.tag, g)) =
+      geometryValidate tbl .attributes (.attrs (some ty.tag) (some r)) := by
+  rw [C03_instance_passthrough tbl hw, (C03_entrypoints_agree tbl hw ty r).2.2.2.2, h]
+  rfl
+
+/-- the same for the union: a geometry object that came out of a construction, handed to a field
+    annotated `Geometry`, is kept – which is what validating its original content would give -/
+theorem C03_union_instance_of_constructed (members : List Cls) (hm : MembersOk members) (ty : GType)
+    (r : Raw) (g : Geom) (h : validate ty r = .ok g) :
+    unionValidateInstance members (⟨ty, ty.tag, ty.tag⟩, (ty.tag, g)) =
+      unionValidate members (.mapping (some ty.tag) (some r)) := by
+  rw [C03_union_eq members hm, (ofTag_some ty.tag ty).2 rfl]
+  have hmem := hm.2 ty
+  simp [unionValidateInstance, hmem, h, Except.map]
+
+/-- Calls of `geometry_validate` under any signature that starts `(obj, mode="json", …defaults)`:
+    positional, keyword, mixed, keywords in either order and the defaulted mode all run the body on
+    the same `(obj, mode)`. -/
+theorem C03_call_styles (tbl : Table) (sig : Sig) (hs : gvSigOkB sig = true) (o : PyObj) (m : String) :
+    let res := some (geometryValidate tbl (Mode.ofString m) o)
+    callGeometryValidate tbl sig [.obj o, .mode m] [] = res ∧
+    callGeometryValidate tbl sig [.obj o] [("mode", .mode m)] = res ∧
+    callGeometryValidate tbl sig [] [("obj", .obj o), ("mode", .mode m)] = res ∧
+    callGeometryValidate tbl sig [] [("mode", .mode m), ("obj", .obj o)] = res ∧
+    callGeometryValidate tbl sig [.obj o] [] = some (geometryValidate tbl .json o) ∧
+    callGeometryValidate tbl sig [] [("obj", .obj o)] = some (geometryValidate tbl .json o) := by
+  match sig, hs with
+  | p :: q :: extra, hs =>
+    simp only [gvSigOkB, Bool.and_eq_true, beq_iff_eq] at hs
+    obtain ⟨⟨rfl, rfl⟩, hx⟩ := hs
+    refine ⟨?_, ?_, ?_, ?_, ?_, ?_⟩ <;>
+      simp [callGeometryValidate, bindArgs, bindPos, bindKw, bindDefaults, bindDefaults_eq _ hx,
+        bindDefaults_filter _ _ hx, List.lookup, List.filter, Mode.ofString]
+
+/-- Constructor calls under any signature with keyword-only `type` (default: the tag) and
+    `coordinates`, *in either order*: the order of the keywords and of the declarations is
+    irrelevant, an omitted `type` is the default. -/
+theorem C03_ctor_keyword_order (ty : GType) (sig : Sig) (hs : ctorSigOkB ty.tag sig = true)
+    (t : String) (r : Raw) :
+    let c : Cls := ⟨ty, ty.tag, ty.tag⟩
+    callConstruct c sig [("type", .type t), ("coordinates", .coordinates r)] = some (construct c (some t) (some r)) ∧
+    callConstruct c sig [("coordinates", .coordinates r), ("type", .type t)] = some (construct c (some t) (some r)) ∧
+    callConstruct c sig [("coordinates", .coordinates r)] = some (construct c none (some r)) := by
+  match sig, hs with
+  | p :: q :: extra, hs =>
+    simp only [ctorSigOkB, Bool.and_eq_true, Bool.or_eq_true, beq_iff_eq] at hs
+    obtain ⟨hpq, hx⟩ := hs
+    rcases hpq with ⟨rfl, rfl⟩ | ⟨rfl, rfl⟩ <;>
+      (refine ⟨?_, ?_, ?_⟩ <;>
+        simp [callConstruct, bindArgs, bindPos, bindKw, bindDefaults, bindDefaults_filter _ _ hx,
+          List.lookup, List.filter])
+
+/-- a process with *any* state threaded through the calls, whose step answers each call by the
+    stateless model, produces the stateless history whatever the state does -/
+theorem C03_history_stateless {σ} (tbl : Table) (members : List Cls) (upd : σ → Call → σ) (s : σ)
+    (calls : List Call) :
+    runWith (fun s c => (upd s c, c.eval tbl members)) s calls = calls.map (Call.eval tbl members) := by
+  induction calls generalizing s with
+  | nil => rfl
+  | cons c cs ih => simp [runWith, ih]
+
+/-- what a call returns does not depend on what was called before it (nor after it): the answer at
+    every step of a history is the base operation's answer on that step's content -/
+theorem C03_history_prefix_independent (tbl : Table) (members : List Cls) (pre post : List Call)
+    (c : Call) :
+    (history tbl members (pre ++ c :: post))[pre.length]? = some (c.eval tbl members) := by
+  unfold history
+  rw [C03_history_stateless tbl members (fun s _ => s)]
+  simp
+
+/-- x, a neighbour y, x again: the two answers for x are the same -/
+theorem C03_history_repeat (tbl : Table) (members : List Cls) (x y : Call) :
+    history tbl members [x, y, x] = [x.eval tbl members, y.eval tbl members, x.eval tbl members] := by
+  unfold history
+  rw [C03_history_stateless tbl members (fun s _ => s)]
+  rfl
+
 /-! ## Non-vacuity: the statements above are about inputs that exist, on both sides -/
 
 -- accepted, with normalisation
@@ -758,5 +898,35 @@ example : Valid (.boundingBox 1 2 3 5) := by
   unfold Valid Admissible Normal TimeOk FreqOk; decide +kernel
 example : validate .multiLineString (encRings [[(0, 1), (1, 1)]]) = .ok (.multiLineString [[(0, 1), (1, 1)]]) := by
   decide +kernel
+
+-- follow-up: attribute lookup, signatures, histories
+-- the instance `__dict__` alone (`vars(obj)`) is not what `getattr` sees: class-level tag, property, slot
+example : (Carrier.classType.make "Point" (.num 1)).type.inst = none ∧
+    (Carrier.classType.make "Point" (.num 1)).type.get = some "Point" := by decide
+example : geometryValidate table .attributes (.ofAttrObj (Carrier.property.make "TimeStamp" (.num 1)))
+    = .ok ("TimeStamp", .timeStamp 1) := by decide +kernel
+example : geometryValidate table .attributes (.ofVars (Carrier.property.make "TimeStamp" (.num 1)))
+    = .error .invalid := by decide +kernel
+example : geometryValidate table .attributes (.ofAttrObj ((Carrier.shadowed "Point").make "TimeStamp" (.num 1)))
+    = .ok ("TimeStamp", .timeStamp 1) := by decide +kernel
+example : geometryValidate table .attributes (.ofAttrObj ((Carrier.propShadow "Point").make "TimeStamp" (.num 1)))
+    = .ok ("TimeStamp", .timeStamp 1) := by decide +kernel
+-- an unset slot is an AttributeError
+example : (⟨{ cls := some (.data none) }, { inst := some (.num 1) }⟩ : AttrObj).type.get = none := by decide
+example : gvSigOkB [⟨"obj", .posOrKw, none⟩, ⟨"mode", .posOrKw, some "json"⟩] = true := by decide
+example : gvSigOkB [⟨"obj", .posOrKw, none⟩, ⟨"mode", .kwOnly, some "json"⟩] = false := by decide
+example : gvSigOkB [⟨"obj", .posOrKw, none⟩, ⟨"mode", .posOrKw, some "dict"⟩] = false := by decide
+example : gvSigOkB [⟨"mode", .posOrKw, some "json"⟩, ⟨"obj", .posOrKw, none⟩] = false := by decide
+example : gvSigOkB [⟨"obj", .posOrKw, none⟩, ⟨"mode", .posOrKw, some "json"⟩, ⟨"strict", .kwOnly, some "False"⟩] = true := by
+  decide
+-- a keyword-only `mode` makes the positional call a TypeError
+example : (callGeometryValidate table [⟨"obj", .posOrKw, none⟩, ⟨"mode", .kwOnly, some "json"⟩]
+    [.obj (.str none), .mode "dict"] []).isNone = true := by decide +kernel
+example : ctorSigOkB "Point" [⟨"coordinates", .kwOnly, none⟩, ⟨"type", .kwOnly, some "Point"⟩] = true := by decide
+example : ctorSigOkB "Point" [⟨"type", .kwOnly, some "MultiPoint"⟩, ⟨"coordinates", .kwOnly, none⟩] = false := by decide
+example : history table allClasses
+    [.geometryValidate .dict (.val (.dict (some "MultiPoint") (some (.arr [.arr [.num (-1), .num 0]])))),
+     .construct ⟨.multiPoint, "MultiPoint", "MultiPoint"⟩ none (some (.arr [.arr [.num 1, .num 0]]))]
+    = [.error .invalid, .ok ("MultiPoint", .multiPoint [(1, 0)])] := by decide +kernel
 
 end SE.Proofs.C03
